@@ -584,3 +584,8 @@ pub const ROOT_LABEL: crate::node_label::NodeLabel = crate::NodeLabel {
     label_val: [0u8; 32],
     label_len: 0,
 };
+
+/// Verification hooks (only with `--cfg facebook_akd_verif`): public wrappers around
+/// crate-private pure functions so that an external harness crate can call them.
+#[cfg(facebook_akd_verif)]
+pub mod verif_hooks;
